@@ -98,6 +98,39 @@ func coqSil(s Sil) string {
 // ---------- (c) codec differential ----------
 
 // codecCase: c.Bytes were produced by protobuf-go; c.RecsN / c.RecsS is what protobuf-go decodes them to.
+// literalTooDeep: a record with a very long string or list would reach Coq as one literal too deep for coqc's parser
+// stack (string literals and list notations are parsed recursively); such records stay Go-side oracles only.
+func literalTooDeep(n []NEntry, s []Sil) bool {
+	const maxStr, maxList = 6000, 1200
+	for _, e := range n {
+		if len(e.GKey) > maxStr || len(e.GHash) > maxStr || len(e.Group) > maxStr || len(e.Firing) > maxList || len(e.ResAl) > maxList || len(e.Data) > maxList {
+			return true
+		}
+		for _, d := range e.Data {
+			if len(d.S) > maxStr || len(d.K) > maxStr {
+				return true
+			}
+		}
+	}
+	for _, x := range s {
+		if len(x.Comment) > maxStr || len(x.CreatedBy) > maxStr || len(x.ID) > maxStr || len(x.Ann) > maxList || len(x.MSets) > maxList ||
+			len(x.RMSets) > maxList || len(x.Matchers) > maxList || len(x.Comments) > maxList {
+			return true
+		}
+		for _, ms := range x.MSets {
+			if len(ms) > maxList {
+				return true
+			}
+		}
+		for _, kv := range x.Ann {
+			if len(kv[0]) > maxStr || len(kv[1]) > maxStr {
+				return true
+			}
+		}
+	}
+	return false
+}
+
 func codecCase(t *testing.T, run *vh.Run, c *Case) {
 	exact := "false"
 	if c.Store == storeNflog {
@@ -105,13 +138,17 @@ func codecCase(t *testing.T, run *vh.Run, c *Case) {
 		if err != nil {
 			t.Fatalf("reference decoder rejects its own bytes: %v", err)
 		}
+		if literalTooDeep(got, nil) {
+			run.Count("codec_cases", "nflog/go-side-only(literal too large)")
+			return
+		}
 		if canonN(got) != canonN(c.RecsN) || len(got) != len(c.RecsN) {
 			run.Violate("roundtrip-not-identical", "nflog: protobuf round trip of the records is not the identity", c)
 		}
 		if bytes.Equal(marshalN(got), c.Bytes) {
 			exact = "true"
 		}
-		run.Add(fmt.Sprintf("CCodecN %s\n  %s %s", coqBytes(c.Bytes), vh.ListOf(got, coqNEntry), exact), c, len(got) > 0)
+		addCase(run, fmt.Sprintf("CCodecN %s\n  %s %s", coqBytes(c.Bytes), vh.ListOf(got, coqNEntry), exact), c, len(got) > 0)
 		run.Count("codec_cases", "nflog/exact="+exact)
 		return
 	}
@@ -119,13 +156,17 @@ func codecCase(t *testing.T, run *vh.Run, c *Case) {
 	if err != nil {
 		t.Fatalf("reference decoder rejects its own bytes: %v", err)
 	}
+	if literalTooDeep(nil, got) {
+		run.Count("codec_cases", "silences/go-side-only(literal too large)")
+		return
+	}
 	if canonS(got) != canonS(c.RecsS) || len(got) != len(c.RecsS) {
 		run.Violate("roundtrip-not-identical", "silences: protobuf round trip of the records is not the identity", c)
 	}
 	if bytes.Equal(marshalS(got), c.Bytes) {
 		exact = "true"
 	}
-	run.Add(fmt.Sprintf("CCodecS %s\n  %s %s", coqBytes(c.Bytes), vh.ListOf(got, coqSil), exact), c, len(got) > 0)
+	addCase(run, fmt.Sprintf("CCodecS %s\n  %s %s", coqBytes(c.Bytes), vh.ListOf(got, coqSil), exact), c, len(got) > 0)
 	run.Count("codec_cases", "silences/exact="+exact)
 }
 
@@ -252,7 +293,7 @@ func mutateCase(t *testing.T, run *vh.Run, c *Case) {
 		hi := min(lo+chunk, len(items))
 		cc := *c
 		cc.Muts = c.Muts[lo:hi]
-		run.Add(fmt.Sprintf("%s %s\n  [%s]", ctor, coqBytes(base), strings.Join(items[lo:hi], ";\n   ")), cc, true)
+		addCase(run, fmt.Sprintf("%s %s\n  [%s]", ctor, coqBytes(base), strings.Join(items[lo:hi], ";\n   ")), cc, true)
 	}
 }
 
